@@ -192,6 +192,9 @@ def check(ctx):
         if isinstance(n, ast.Compare) and 'max_dist' in norm_text(n):
             t = norm_text(n).replace(' ', '')
             v = it.value_of(n.left)
+            if v is not None and v.zipped_fancy:
+                ctx.ob('R4', fi, n.left, False, 'the distance block is read with two index lists, which numpy pairs element by element: only origin-origin '
+                                                'and destination-destination distances are tested, the cross terms (origin of one jump vs destination of the other) are lost')
             ok = isinstance(n.ops[0], (ast.Lt, ast.LtE)) and v is not None and v.geo == ('DIST',)
             par_any = any(isinstance(c, ast.Call) and norm_text(c.func).endswith('any') and c.args and c.args[0] is n for c in ast.walk(fi.node))
             ctx.ob('R4', fi, n, True if (ok and par_any) else (False if isinstance(n.ops[0], (ast.Gt, ast.GtE)) else None),
@@ -205,6 +208,17 @@ def check(ctx):
         ctx.ob('R5', fj, 'max_steps', ok, 'window in frames is dimensionless: 1 / (frequency * time step)' if ok else msg)
     if not cons:
         ctx.ob('R5', fj, 'max_steps', None, 'Collective construction not found')
+    marks = [norm_text(n.targets[0].slice).replace(' ', '') for n in ast.walk(fi.node) if isinstance(n, ast.Assign) and len(n.targets) == 1
+             and isinstance(n.targets[0], ast.Subscript) and norm_text(n.targets[0].value) == 'collective_matrix']
+    if marks:
+        pairs = set(marks)
+        sym = any(f'{b},{a}' in pairs or f'({b},{a})' in pairs for a, b in [m.strip('()').split(',') for m in marks if m.count(',') == 1])
+        red = [n for n in ast.walk(fi.node) if isinstance(n, ast.Call) and norm_text(n.func).endswith('any') and n.args and 'collective_matrix' in norm_text(n.args[0])]
+        both_axes = any('.T' in norm_text(r.args[0]) or '|' in norm_text(r.args[0]) for r in red)
+        ctx.ob('R5', fi, 'collective_matrix marks', True if (sym or both_axes) else False,
+               'both jumps of a pair are marked collective' if (sym or both_axes) else
+               'only one jump of every pair is marked in the pair matrix, but solo jumps are counted from a single axis of it: the earlier jump of '
+               'each pair is counted as solo')
     asg = {}
     for n in ast.walk(fi.node):
         if isinstance(n, ast.Assign) and len(n.targets) == 1 and isinstance(n.targets[0], ast.Attribute):
